@@ -33,7 +33,7 @@ Bump(r, n) == TLCSet(r, TLCGet(r) + n)
 None == [ost |-> <<>>, pools |-> <<>>, ctr |-> <<>>, results |-> <<>>, klog |-> <<>>, crash |-> ""]
 NoCfg == [mode |-> "none"]
 Init == /\ l = 1 /\ s = None /\ cfg = NoCfg /\ wl = <<>> /\ cmds = [sus |-> <<>>, asg |-> <<>>] /\ dead = FALSE
-        /\ acct = [succ |-> 0, fail |-> 0]
+        /\ acct = [succ |-> 0, fail |-> 0, maxcid |-> 0]
         /\ \A r \in Regs : TLCSet(r, 0)
 
 Flag(e, name, ok, detail) == IF ok THEN TRUE ELSE PrintT(<<"VIOL", e.tid, e.t, name, detail>>) /\ Bump(RViol, 1)
@@ -45,7 +45,7 @@ PrepSeg(c, raw) ==
    fixed |-> raw.fixed, read |-> raw.read, grow |-> (20 * c.U) \div c.tps]
 PrepPipe(c, raw) == [prio |-> raw.prio, arr |-> 0,
                      ops |-> [i \in 1..Len(raw.ops) |-> [par |-> raw.ops[i].par,
-                                                         segs |-> [k \in 1..Len(raw.ops[i].segs) |-> PrepSeg(c, raw.ops[i].segs[k])]]]]
+                                                         segs |-> IF c.mode = "step" THEN [k \in 1..Len(raw.ops[i].segs) |-> PrepSeg(c, raw.ops[i].segs[k])] ELSE <<>>]]]
 \* stepping needs inputs that the float arithmetic of the code decides uniquely (harness obligation)
 SegSteppable(c, raw) ==
   /\ raw.law \in RationalLaws /\ (20 * c.U) % c.tps = 0 /\ raw.readr = 0 /\ raw.fixedr = 0
@@ -56,6 +56,10 @@ PipeSteppable(c, raw) == \A i \in 1..Len(raw.ops) : \A k \in 1..Len(raw.ops[i].s
 Tol == IF cfg.mode = "none" THEN 0 ELSE cfg.U                  \* 1e-6 GB in millionths of a unit
 Abs(x) == IF x < 0 THEN -x ELSE x
 Near(r) == Abs(r) <= Tol
+\* (n1 + r1/10^6) - (n2 + r2/10^6) in millionths of a unit, saturated (no 32-bit overflow)
+Diff(n1, r1, n2, r2) == IF n1 - n2 > 2 THEN 3000000 ELSE IF n1 - n2 < -2 THEN -3000000 ELSE (n1 - n2) * 1000000 + r1 - r2
+EqQ(n1, r1, n2, r2) == Abs(Diff(n1, r1, n2, r2)) <= Tol
+LeQ(n1, r1, n2, r2) == Diff(n1, r1, n2, r2) <= Tol
 
 (* ---- observation helpers ---- *)
 ObsCids(q) == [j \in 1..Len(q) |-> q[j].cid]
@@ -85,13 +89,13 @@ ObsClauses(e) ==
           \A x \in AllOpsOf(wl) : Cardinality({c \in LiveObs(o) : \E m \in (c.idx + 1)..Len(c.ops) : c.ops[m] = x}) <= 1, "obs")
   /\ \A k \in 1..cfg.np : LET p == o.pools[k] IN
        /\ Flag(e, "C03.ConservationCpu", p.acpu + ObsSumCpu(p) = cfg.cpucap, <<k, p.acpu, ObsSumCpu(p)>>)
-       /\ Flag(e, "C03.ConservationRam", p.aram + ObsSumRam(p) = cfg.ramcap /\ Near(p.aramr + ObsSumRamR(p) - cfg.ramcapr),
+       /\ Flag(e, "C03.ConservationRam", EqQ(p.aram + ObsSumRam(p), p.aramr + ObsSumRamR(p), cfg.ramcap, cfg.ramcapr),
                <<k, p.aram, ObsSumRam(p)>>)
-       /\ Flag(e, "C03.NonNegative", p.acpu >= 0 /\ (~cfg.oc => (p.aram > 0 \/ (p.aram = 0 /\ p.aramr >= -Tol))), <<k, p.acpu, p.aram>>)
+       /\ Flag(e, "C03.NonNegative", p.acpu >= 0 /\ (~cfg.oc => LeQ(0, 0, p.aram, p.aramr)), <<k, p.acpu, p.aram>>)
        /\ Flag(e, "C04.WithinAlloc", \A j \in 1..Len(p.active) :
-                  p.active[j].mem < p.active[j].ram \/ (p.active[j].mem = p.active[j].ram /\ p.active[j].memr - p.active[j].ramr <= Tol), k)
-       /\ Flag(e, "C04.PoolWithinCap", ObsSumMem(p) < cfg.ramcap \/ (ObsSumMem(p) = cfg.ramcap /\ ObsSumMemR(p) - cfg.ramcapr <= Tol), <<k, ObsSumMem(p)>>)
-       /\ Flag(e, "C04.ReportedIsSum", p.cons = ObsSumMem(p) /\ Near(p.consr - ObsSumMemR(p)), <<k, p.cons, ObsSumMem(p)>>)
+                  LeQ(p.active[j].mem, p.active[j].memr, p.active[j].ram, p.active[j].ramr), k)
+       /\ Flag(e, "C04.PoolWithinCap", LeQ(ObsSumMem(p), ObsSumMemR(p), cfg.ramcap, cfg.ramcapr), <<k, ObsSumMem(p)>>)
+       /\ Flag(e, "C04.ReportedIsSum", EqQ(p.cons, p.consr, ObsSumMem(p), ObsSumMemR(p)), <<k, p.cons, p.consr, ObsSumMem(p), ObsSumMemR(p)>>)
        /\ Flag(e, "C10.SuspLeftPositive", \A j \in 1..Len(p.suspending) : p.suspending[j].sleft >= 1, k)
        /\ Flag(e, "C10.Keeps", \A j \in 1..Len(p.suspending) : LET c == p.suspending[j] IN
                   (c.cid \in 1..Len(s.ctr) /\ s.ctr[c.cid].ram > 0) => (c.cpu = s.ctr[c.cid].cpu /\ c.ram = s.ctr[c.cid].ram /\ c.idx = s.ctr[c.cid].idx), k)
@@ -108,7 +112,7 @@ ObsClauses(e) ==
 ObsMaxCid(o) == LET all == UNION {Range(ObsCids(o.pools[k].active)) \cup Range(ObsCids(o.pools[k].suspending)) \cup Range(o.pools[k].suspended) : k \in 1..cfg.np}
                             \cup {o.results[j].cid : j \in 1..Len(o.results)}
                 IN IF all = {} THEN 0 ELSE CHOOSE m \in all : \A x \in all : x <= m
-AcctAfter(e) == [succ |-> acct.succ + Cardinality({j \in 1..Len(e.obs.results) : e.obs.results[j].err = ""}),
+AcctAfter(e) == [maxcid |-> IF ObsMaxCid(e.obs) > acct.maxcid THEN ObsMaxCid(e.obs) ELSE acct.maxcid, succ |-> acct.succ + Cardinality({j \in 1..Len(e.obs.results) : e.obs.results[j].err = ""}),
                  fail |-> acct.fail + Cardinality({j \in 1..Len(e.obs.results) : e.obs.results[j].err # ""})]
 AcctClause(e, created) ==
   LET o == e.obs a == AcctAfter(e)
@@ -243,7 +247,7 @@ LiveObsFull(o) == UNION {{[cid |-> o.pools[k].active[j].cid, idx |-> o.pools[k].
 ObsExec(e) ==   \* "obs" mode: no prediction; the spec state only carries the last observed operator states
   /\ Bump(RTicks, 1) /\ Bump(RResults, Len(e.obs.results)) /\ Bump(RFail, Cardinality({j \in 1..Len(e.obs.results) : e.obs.results[j].err # ""}))
   /\ ObsClauses(e)
-  /\ AcctClause(e, ObsMaxCid(e.obs))
+  /\ AcctClause(e, AcctAfter(e).maxcid)
   /\ acct' = AcctAfter(e)
   /\ s' = [s EXCEPT !.ost = e.obs.ost,
                     !.ctr = [c \in 1..ObsMaxCid(e.obs) |->
@@ -256,7 +260,7 @@ Step(e) ==
          /\ cfg' = e.cfg
          /\ wl' = [p \in 1..Len(e.wl) |-> PrepPipe(e.cfg, e.wl[p])]
          /\ s' = InitState(e.cfg, [p \in 1..Len(e.wl) |-> PrepPipe(e.cfg, e.wl[p])])
-         /\ cmds' = [sus |-> <<>>, asg |-> <<>>] /\ dead' = FALSE /\ acct' = [succ |-> 0, fail |-> 0]
+         /\ cmds' = [sus |-> <<>>, asg |-> <<>>] /\ dead' = FALSE /\ acct' = [succ |-> 0, fail |-> 0, maxcid |-> 0]
          /\ Bump(RTraces, 1)
          /\ (e.mode = "step" => \A p \in 1..Len(e.wl) :
                IF PipeSteppable(e.cfg, e.wl[p]) THEN TRUE ELSE PrintT(<<"PRECOND", e.tid, "pipeline not steppable", p>>))
@@ -267,8 +271,10 @@ Step(e) ==
          /\ (cfg.mode = "step" => IF PipeSteppable(cfg, e.wl) THEN TRUE ELSE PrintT(<<"PRECOND", e.tid, "pipeline not steppable", e.p>>))
          /\ UNCHANGED <<cfg, cmds, dead, acct>>
     [] e.ev = "round" ->
-         LET pred == MkAssignments(wl, s, e.asg) IN
+         LET base == IF "pre" \in DOMAIN e THEN [s EXCEPT !.ost = e.pre.ost] ELSE s     \* sparse logs: states moved on since the last logged event
+             pred == MkAssignments(wl, base, e.asg) IN
          /\ Bump(RRounds, 1)
+         /\ (cfg.mode = "step" /\ "pre" \in DOMAIN e => Flag(e, "conf.C02.ost.pre", s.ost = e.pre.ost, <<"spec", s.ost, "obs", e.pre.ost>>))
          /\ IF e.raised # ""
             THEN /\ Bump(RReject, 1)
                  /\ Flag(e, "conf.raise.round", pred.crash # "", <<"code raised", e.raised, "spec accepts", e.asg>>)
@@ -277,18 +283,18 @@ Step(e) ==
             THEN /\ Flag(e, RejectClause(pred.crash), FALSE, <<"spec rejects with", pred.crash, "code built the assignment", e.asg>>)
                  /\ s' = s /\ dead' = TRUE
             ELSE /\ Flag(e, "conf.C02.ost.round", pred.ost = e.obs.ost, <<"pred", pred.ost, "obs", e.obs.ost>>)
-                 /\ Flag(e, "C02.LegalMoves", \A x \in AllOpsOf(wl) : ObsOst(e, x) # Ost(s, x) => ObsOst(e, x) \in ReachN(Ost(s, x)), "round")
+                 /\ Flag(e, "C02.LegalMoves", \A x \in AllOpsOf(wl) : ObsOst(e, x) # Ost(base, x) => ObsOst(e, x) \in ReachN(Ost(base, x)), "round")
                  /\ s' = [pred EXCEPT !.ost = e.obs.ost] /\ dead' = FALSE
          /\ cmds' = [sus |-> e.sus, asg |-> e.asg] /\ UNCHANGED <<cfg, wl, acct>>
     [] e.ev = "exec" ->
          /\ (IF cfg.mode = "step" THEN StepExec(e) ELSE ObsExec(e))
          /\ UNCHANGED <<cfg, wl, cmds>>
-    [] e.ev = "raise" ->
+    [] e.ev = "raise" /\ e.where = "exec" ->
          LET pred == ExecTick(cfg, wl, s, cmds.sus, cmds.asg) IN
          /\ Bump(RRaise, 1) /\ Bump(RReject, 1)
          /\ (cfg.mode = "step" => Flag(e, "conf.raise.exec", pred.crash # "", <<"code raised", e.exc, e.msg, "spec accepts", cmds>>))
          /\ dead' = TRUE /\ UNCHANGED <<s, cfg, wl, cmds, acct>>
-    [] e.ev = "end" -> UNCHANGED <<s, cfg, wl, cmds, dead, acct>>
+    [] OTHER -> UNCHANGED <<s, cfg, wl, cmds, dead, acct>>
 
 Next == /\ l <= Len(TraceLog)
         /\ Step(TraceLog[l])
